@@ -25,7 +25,7 @@ RULE = (
     "histories over virtual time: per attempt a scripted outcome from {resolve error, TCP refused after d, TCP hang, "
     "garbage during handshake, wrong device name, invalid password, requires-encryption, success}; session endings "
     "(DisconnectRequest = expected, reset / silence->ping failure = unexpected) at generated instants; mDNS record events "
-    "(PTR alias / A name matching the device, non-matching names and types) delivered through the fake zeroconf's listener "
+    "(PTR alias / A name matching the device, non-matching names and types, TXT/AAAA/SRV/NSEC records of other devices) delivered through the fake zeroconf's listener "
     "registry or forced onto the manager while it is not listening; start() / stop() / stop_callback() at generated "
     "instants incl. the instants of retry timers; client with and without a device name. non-trivial = >=2 consecutive "
     "failures followed by a success, or an mDNS/stop event within 1/64 s of a retry instant, or a stop while an attempt "
@@ -182,7 +182,10 @@ def run_case(case: dict) -> CaseResult:
             rec = {"ptr": Rec(_TYPE_PTR, alias=ptr_alias, name="_esphomelib._tcp.local."), "a": Rec(_TYPE_A, name=a_name),
                    "other_ptr": Rec(_TYPE_PTR, alias="other._esphomelib._tcp.local.", name="_esphomelib._tcp.local."),
                    "other_a": Rec(_TYPE_A, name="other.local."), "ptr_wrong_type": Rec(_TYPE_A, alias=ptr_alias, name="x.local."),
-                   "a_wrong_type": Rec(_TYPE_PTR, alias="x", name=a_name)}[kind]
+                   "a_wrong_type": Rec(_TYPE_PTR, alias="x", name=a_name),
+                   # records of other types announced by OTHER devices (TXT 16, AAAA 28, SRV 33, NSEC 47)
+                   "other_txt": Rec(16, name="other._esphomelib._tcp.local."), "other_aaaa": Rec(28, name="other.local."),
+                   "other_srv": Rec(33, name="other._esphomelib._tcp.local."), "other_nsec": Rec(47, name="other.local.")}[kind]
             matching = kind in ("ptr", "a")
             listeners = [(z, l) for z in world.zcs for l in list(z.listeners)]
             if listeners:
@@ -494,7 +497,7 @@ def _case(draw, tier):
         else:
             tt = draw(st.integers(0, 64 * 150))
         if r <= 3:
-            events.append({"t": tt, "do": "mdns", "rec": draw(st.sampled_from(["ptr", "a", "ptr", "other_ptr", "other_a", "ptr_wrong_type", "a_wrong_type"])), "force": draw(st.booleans())})
+            events.append({"t": tt, "do": "mdns", "rec": draw(st.sampled_from(["ptr", "a", "ptr", "other_ptr", "other_a", "ptr_wrong_type", "a_wrong_type", "other_txt", "other_aaaa", "other_srv", "other_nsec"])), "force": draw(st.booleans())})
         elif r <= 6:
             events.append({"t": tt, "do": "end", "how": draw(st.sampled_from(["reset", "discreq", "discreq", "silence"]))})
         elif r == 7:
@@ -526,7 +529,7 @@ def enumerated(tier):
         for after in ([["ok"]], [["refuse", 2], ["refuse", 2], ["ok"]]):
             yield {"named": True, "addr": "ip", "K": 4.0, "plan": [["ok"]] + after, "events": [{"t": 0, "do": "start"}, {"t": 640, "do": "end", "how": how}], "horizon": 200}
     # mDNS while waiting / handshaking / connected / stopped, registered and forced, every record kind
-    for rec in ("ptr", "a", "other_ptr", "other_a", "ptr_wrong_type", "a_wrong_type"):
+    for rec in ("ptr", "a", "other_ptr", "other_a", "ptr_wrong_type", "a_wrong_type", "other_txt", "other_aaaa", "other_srv", "other_nsec"):
         for force in (False, True):
             # waiting for the 6 s back-off (n=3) at t~5.1: record at t=8 s
             yield {"named": True, "addr": "ip", "K": 4.0, "plan": [["refuse", 2]] * 3 + [["ok"]], "events": [{"t": 0, "do": "start"}, {"t": 8 * 64, "do": "mdns", "rec": rec, "force": force}], "horizon": 120}
